@@ -146,8 +146,8 @@ func run(c *lib.Ctx) {
 		"score queue = harness adapter over the repository's common/skiplist.Queue (as the price/score mempool plugins do); it is not part of the repository",
 		"pool-age expiry is produced by VerifSetEnterTime(now-10*limit); no oracle reads the clock")
 
-	nSeq := c.N(60, 1500)
-	nConc := c.N(4, 40)
+	nSeq := c.N(60, 800)
+	nConc := c.N(4, 16)
 	repeats := c.N(3, 10)
 	if os.Getenv("VERIF_SCALE") != "" && repeats < 1 {
 		repeats = 1
@@ -175,7 +175,7 @@ func run(c *lib.Ctx) {
 		hc.PerAcc = rng.Range(1, 3)
 		hc.LastMax = rng.Range(1, 3)
 		hc.Cap = rng.Range(1, 8)
-		hc.NEvents = rng.Range(200, 700)
+		hc.NEvents = rng.Range(200, 600)
 		if !c.Quick() {
 			hc.NEvents = rng.Range(200, 2000)
 		}
